@@ -350,6 +350,8 @@ class _Num(Sym):
         if isinstance(o, (int,) + _NPINT) and not isinstance(o, bool):
             o = int(o)
             if o == 0:
+                if isinstance(self, SFP):
+                    return 1.0
                 return 1 if isinstance(self, SInt) else SReal(z3.RealVal(1))
             if o > 0:
                 r = self
@@ -747,6 +749,8 @@ def to_int_trunc(x):
 
 def sym_sqrt(x):
     """sqrt as a witness r >= 0, r*r == x (memoised per path); obligation x >= 0"""
+    if isinstance(x, SFP):
+        return SFP(z3.fpSqrt(_RNE, x.t))        # IEEE: correctly rounded, NaN for negative arguments
     if not is_sym(x):
         if isinstance(x, fractions.Fraction):
             x = float(x)
